@@ -56,6 +56,8 @@ fn initialize(write: &mut Option<[Arc<Final>; N_POWERS]>) {
 /// Panics if you request a number `n` greater than or equal to the length
 /// of [`Tmr::TWO_TWO_N`].
 pub fn nth_power_of_2(n: usize) -> Arc<Final> {
+    #[cfg(feature = "verif-hooks")]
+    crate::verif_hooks::sched_point(crate::verif_hooks::SchedPoint::Precomputed);
     TWO_TWO_N.with(|arr| {
         if arr.borrow().is_none() {
             initialize(&mut arr.borrow_mut());
@@ -93,6 +95,8 @@ fn initialize_buffers(write: &mut Option<[Arc<Final>; N_BUFFERS]>) {
 /// Panics if you request a number `n` greater than or equal to the length
 /// of [`Tmr::BUFFER8_TWO_N_PLUS_ONE`].
 pub fn buffer8_two_n_plus_one(n: usize) -> Arc<Final> {
+    #[cfg(feature = "verif-hooks")]
+    crate::verif_hooks::sched_point(crate::verif_hooks::SchedPoint::Precomputed);
     BUFFER8_TWO_N_PLUS_ONE.with(|arr| {
         if arr.borrow().is_none() {
             initialize_buffers(&mut arr.borrow_mut());
@@ -104,6 +108,8 @@ pub fn buffer8_two_n_plus_one(n: usize) -> Arc<Final> {
 
 /// Obtain a precomputed copy of the `SHA256` `Ctx8` type.
 pub fn ctx8() -> Arc<Final> {
+    #[cfg(feature = "verif-hooks")]
+    crate::verif_hooks::sched_point(crate::verif_hooks::SchedPoint::Precomputed);
     CTX8.with(|opt| {
         if opt.borrow().is_none() {
             *opt.borrow_mut() = Some(Final::product(
